@@ -166,14 +166,42 @@ static void with_dest(int dk, Out& o, std::size_t cap, F f)
 }
 static void src_tok(Out& o, Buf const& s, V const& v) { if (s.vec() != v || !s.guards_ok()) { o.tok("SOURCE-MODIFIED"); } }
 
+// ---- result type of the predicates / comparators: op suffix "_t<k>" ------------------------------------------
+//   (none) bool; _t1 int with truthy value 2 (a masked bit); _t2 int, truthy value -1; _t3 int, truthy value 4096 (lost by a
+//   narrowing to 8 bits); _t4 a class type contextually convertible to bool (through operator int; in the build xbool: explicit operator bool only).
+//   [algorithms.requirements]: the algorithm may use the result of a predicate only through its conversion to bool.
+static int g_tv = 2;
+struct Truthy {
+    int v;
+#ifdef TRUTH_EXPLICIT
+    explicit operator bool() const { return v != 0; }   // build "xbool": every use that is not a contextual conversion fails to compile
+#else
+    operator int() const { return v; }                  // contextually convertible to bool through int; arithmetic on it shows at run time
+#endif
+};
+struct TPBool { static bool of(bool b) { return b; } };
+struct TPInt { static int of(bool b) { return b ? g_tv : 0; } };
+struct TPCls { static Truthy of(bool b) { return Truthy{b ? g_tv : 0}; } };
+
+template <typename TP>
 static bool run_case_inner(std::string const& op_in, Toks& in, Out& impl, Out& ref);
+static bool run_case_mv(std::string op, Toks& in, Out& impl, Out& ref);
 bool vh::run_case(std::string const& op_in, Toks& in, Out& impl, Out& ref)
 {
     g_oob = false;
-    bool r = run_case_inner(op_in, in, impl, ref);
+    std::string op = op_in;
+    int tk = 0;
+    auto n = op.size();
+    if (n > 3 && op[n - 3] == '_' && op[n - 2] == 't' && op[n - 1] >= '1' && op[n - 1] <= '4') { tk = op[n - 1] - '0'; op.resize(n - 3); }
+    bool r;
+    if (op.find("_mv") != std::string::npos) { r = tk == 0 && run_case_mv(op, in, impl, ref); }
+    else if (tk == 0) { r = run_case_inner<TPBool>(op, in, impl, ref); }
+    else if (tk == 4) { g_tv = 2; r = run_case_inner<TPCls>(op, in, impl, ref); }
+    else { g_tv = tk == 1 ? 2 : (tk == 2 ? -1 : 4096); r = run_case_inner<TPInt>(op, in, impl, ref); }
     if (g_oob && !impl.empty() && impl.s != "contract") { impl.tok("oob"); }
     return r;
 }
+template <typename TP>
 static bool run_case_inner(std::string const& op_in, Toks& in, Out& impl, Out& ref)
 {
     std::string op = op_in;
@@ -230,8 +258,8 @@ static bool run_case_inner(std::string const& op_in, Toks& in, Out& impl, Out& r
         guarded(impl, [&](Out& o) {
             std::ptrdiff_t r;
             if (op == "remove") { r = etl::remove(a.b(), a.e(), id) - a.b(); }
-            else if (op == "remove_fwd") { r = etl::remove_if(FwdIt<int>(a.b()), FwdIt<int>(a.e()), [&](int x) { return pred_of(id, x); }).p - a.b(); }
-            else { r = etl::remove_if(a.b(), a.e(), [&](int x) { return pred_of(id, x); }) - a.b(); }
+            else if (op == "remove_fwd") { r = etl::remove_if(FwdIt<int>(a.b()), FwdIt<int>(a.e()), [&](int x) { return TP::of(pred_of(id, x)); }).p - a.b(); }
+            else { r = etl::remove_if(a.b(), a.e(), [&](int x) { return TP::of(pred_of(id, x)); }) - a.b(); }
             o.tok("ok");
             if (full) { o.num(r); put(o, a.vec()); } else { put_prefix(o, a.b(), r); }
             guard_tok(o, a);
@@ -240,7 +268,7 @@ static bool run_case_inner(std::string const& op_in, Toks& in, Out& impl, Out& r
             V s = v;
             std::ptrdiff_t r;
             if (op == "remove") { r = std::remove(s.begin(), s.end(), id) - s.begin(); }
-            else { r = std::remove_if(s.begin(), s.end(), [&](int x) { return pred_of(id, x); }) - s.begin(); }
+            else { r = std::remove_if(s.begin(), s.end(), [&](int x) { return TP::of(pred_of(id, x)); }) - s.begin(); }
             ref.tok("ok"); put_prefix(ref, s.data(), r);
         }
         return true;
@@ -252,16 +280,16 @@ static bool run_case_inner(std::string const& op_in, Toks& in, Out& impl, Out& r
         bool full = op == "unique_full";
         guarded(impl, [&](Out& o) {
             std::ptrdiff_t r;
-            if (op == "unique_fwd") { r = etl::unique(FwdIt<int>(a.b()), FwdIt<int>(a.e()), [&](int x, int y) { return eqv_of(id, x, y); }).p - a.b(); }
+            if (op == "unique_fwd") { r = etl::unique(FwdIt<int>(a.b()), FwdIt<int>(a.e()), [&](int x, int y) { return TP::of(eqv_of(id, x, y)); }).p - a.b(); }
             else if (id == 1) { r = etl::unique(a.b(), a.e()) - a.b(); }
-            else { r = etl::unique(a.b(), a.e(), [&](int x, int y) { return eqv_of(id, x, y); }) - a.b(); }
+            else { r = etl::unique(a.b(), a.e(), [&](int x, int y) { return TP::of(eqv_of(id, x, y)); }) - a.b(); }
             o.tok("ok");
             if (full) { o.num(r); put(o, a.vec()); } else { put_prefix(o, a.b(), r); }
             guard_tok(o, a);
         });
         if (!full) {
             V s = v;
-            auto r = std::unique(s.begin(), s.end(), [&](int x, int y) { return eqv_of(id, x, y); }) - s.begin();
+            auto r = std::unique(s.begin(), s.end(), [&](int x, int y) { return TP::of(eqv_of(id, x, y)); }) - s.begin();
             ref.tok("ok"); put_prefix(ref, s.data(), r);
         }
         return true;
@@ -271,7 +299,7 @@ static bool run_case_inner(std::string const& op_in, Toks& in, Out& impl, Out& r
         V v = tov(in.list());
         Buf a(v);
         bool full = op == "partition_full";
-        auto p = [&](int x) { return pred_of(id, x); };
+        auto p = [&](int x) { return TP::of(pred_of(id, x)); };
         guarded(impl, [&](Out& o) {
             std::ptrdiff_t r;
             if (op == "partition_fwd") { r = etl::partition(FwdIt<int>(a.b()), FwdIt<int>(a.e()), p).p - a.b(); }
@@ -295,7 +323,7 @@ static bool run_case_inner(std::string const& op_in, Toks& in, Out& impl, Out& r
         auto id = static_cast<int>(in.num());
         V v = tov(in.list());
         Buf a(v);
-        auto p = [&](int x) { return pred_of(id, x); };
+        auto p = [&](int x) { return TP::of(pred_of(id, x)); };
         guarded(impl, [&](Out& o) {
             auto r = etl::stable_partition(a.b(), a.e(), p) - a.b();
             o.tok("ok").num(r); put(o, a.vec()); guard_tok(o, a);
@@ -339,7 +367,7 @@ static bool run_case_inner(std::string const& op_in, Toks& in, Out& impl, Out& r
         auto mid = in.num();
         V v = tov(in.list());
         Buf a(v);
-        auto c = [&](int x, int y) { return cmp_of(id, x, y); };
+        auto c = [&](int x, int y) { return TP::of(cmp_of(id, x, y)); };
         guarded(impl, [&](Out& o) {
             if (id == 3) { etl::inplace_merge(a.b(), a.b() + mid, a.e()); } else { etl::inplace_merge(a.b(), a.b() + mid, a.e(), c); }
             o.tok("ok"); put(o, a.vec()); guard_tok(o, a);
@@ -368,7 +396,7 @@ static bool run_case_inner(std::string const& op_in, Toks& in, Out& impl, Out& r
             if (nm == "nth_element" || nm == "partial_sort") { k = in.num(); }
             V v = tov(in.list());
             Buf a(v);
-            auto c = [&](int x, int y) { return cmp_of(id, x, y); };
+            auto c = [&](int x, int y) { return TP::of(cmp_of(id, x, y)); };
             bool stable = nm == "stable_sort";
             bool dflt = id == 3;
             auto call = [&](auto b, auto e) {
@@ -633,7 +661,7 @@ static bool run_case_inner(std::string const& op_in, Toks& in, Out& impl, Out& r
         auto id = static_cast<int>(in.num());
         V v = tov(in.list());
         Buf s(v, SGUARD);
-        auto p = [&](int x) { return pred_of(id, x); };
+        auto p = [&](int x) { return TP::of(pred_of(id, x)); };
         guarded(impl, [&](Out& o) {
             with_dest<2U | 4U>(dk, o, v.size(), [&](auto d) {
                 return with_src<2U | 4U>(sk, s.b(), s.e(), [&](auto b, auto e) {
@@ -681,13 +709,13 @@ static bool run_case_inner(std::string const& op_in, Toks& in, Out& impl, Out& r
         V v = tov(in.list());
         Buf a(v);
         guarded(impl, [&](Out& o) {
-            auto p = [&](int x) { return pred_of(id, x); };
+            auto p = [&](int x) { return TP::of(pred_of(id, x)); };
             if (op == "replace_if") { if (sk == 2) { etl::replace_if(FwdIt<int>(a.b()), FwdIt<int>(a.e()), p, nv); } else { etl::replace_if(a.b(), a.e(), p, nv); } }
             else { if (sk == 2) { etl::replace(FwdIt<int>(a.b()), FwdIt<int>(a.e()), id, nv); } else { etl::replace(a.b(), a.e(), id, nv); } }
             o.tok("ok"); put(o, a.vec()); guard_tok(o, a);
         });
         V s = v;
-        if (op == "replace_if") { std::replace_if(s.begin(), s.end(), [&](int x) { return pred_of(id, x); }, nv); }
+        if (op == "replace_if") { std::replace_if(s.begin(), s.end(), [&](int x) { return TP::of(pred_of(id, x)); }, nv); }
         else { std::replace(s.begin(), s.end(), id, nv); }
         ref.tok("ok"); put(ref, s);
         return true;
@@ -743,7 +771,7 @@ static bool run_case_inner(std::string const& op_in, Toks& in, Out& impl, Out& r
         auto id = static_cast<int>(in.num());
         V v = tov(in.list());
         Buf s(v, SGUARD);
-        auto e = [&](int x, int y) { return eqv_of(id, x, y); };
+        auto e = [&](int x, int y) { return TP::of(eqv_of(id, x, y)); };
         guarded(impl, [&](Out& o) {
             // etl::unique_copy reads *destination: the destination must be a forward iterator (kinds 0 and 3)
             with_dest<8U>(dk, o, v.size(), [&](auto d) {
@@ -763,7 +791,7 @@ static bool run_case_inner(std::string const& op_in, Toks& in, Out& impl, Out& r
         auto id = static_cast<int>(in.num());
         V v = tov(in.list());
         Buf s(v, SGUARD), d1(v.size()), d2(v.size());
-        auto p = [&](int x) { return pred_of(id, x); };
+        auto p = [&](int x) { return TP::of(pred_of(id, x)); };
         guarded(impl, [&](Out& o) {
             o.tok("ok");
             if (dk == 2) {
@@ -788,6 +816,260 @@ static bool run_case_inner(std::string const& op_in, Toks& in, Out& impl, Out& r
         auto r = std::partition_copy(v.begin(), v.end(), o1.begin(), o2.begin(), p);
         ref.tok("ok"); put_prefix(ref, o1.data(), r.first - o1.begin()); put_prefix(ref, o2.data(), r.second - o2.begin());
         return true;
+    }
+    return false;
+}
+
+// ---- move-tracking element type: op suffix "_mv" (specified part only) / "_mv_full" (whole array) -------------------
+// The move constructor / move assignment take the value over and MARK THE SOURCE (value MOVED), with no self test - like
+// a handle or buffer owner.  A move-assignment of an element onto itself therefore destroys it, and every move the
+// algorithm makes is visible afterwards: the legs show the element sequence with the moved-from marks.
+static constexpr int MOVED = -999;
+static long g_massign  = 0;
+static long g_selfmove = 0;
+struct Mv {
+    int v{0};
+    Mv() = default;
+    explicit Mv(int x) : v{x} { }
+    Mv(Mv const&)                    = default;
+    auto operator=(Mv const&) -> Mv& = default;
+    Mv(Mv&& o) noexcept : v{o.v} { o.v = MOVED; }
+    auto operator=(Mv&& o) noexcept -> Mv&
+    {
+        ++g_massign;
+        if (this == &o && v != MOVED) { ++g_selfmove; }   // a LIVE element assigned onto itself (the middle step of swap(a, a) is not)
+        v   = o.v;
+        o.v = MOVED;
+        return *this;
+    }
+    friend bool operator==(Mv const& a, Mv const& b) { return a.v == b.v; }
+    friend bool operator<(Mv const& a, Mv const& b) { return a.v < b.v; }
+};
+struct MBuf {
+    std::vector<Mv> st;
+    std::size_t n;
+    explicit MBuf(V const& v) : st(v.size() + 2), n(v.size())
+    {
+        st.front().v = GUARD;
+        st.back().v  = GUARD;
+        for (std::size_t i = 0; i < n; ++i) { st[i + 1].v = v[i]; }
+        g_massign  = 0;
+        g_selfmove = 0;
+    }
+    Mv* b() { return st.data() + 1; }
+    Mv* e() { return st.data() + 1 + n; }
+    bool guards_ok() const { return st.front().v == GUARD && st.back().v == GUARD; }
+    V vec() const
+    {
+        V r(n);
+        for (std::size_t i = 0; i < n; ++i) { r[i] = st[i + 1].v; }
+        return r;
+    }
+};
+static void put_range(Out& o, Mv const* b, std::ptrdiff_t k)
+{
+    o.num(k);
+    for (std::ptrdiff_t i = 0; i < k; ++i) { o.num(b[i].v); }
+}
+// `count`: the number of move assignments is part of the leg (the algorithms whose moves are modelled one by one)
+static void mv_tail(Out& o, MBuf const& a, bool count)
+{
+    if (!a.guards_ok()) { o.tok("GUARD-HIT"); }
+    if (count) { o.tok("A").num(g_massign); }
+    if (g_selfmove != 0) { o.tok("SELF-MOVE").num(g_selfmove); }
+}
+
+static bool run_case_mv(std::string op, Toks& in, Out& impl, Out& ref)
+{
+    bool full = strip_suffix(op, "_full");
+    if (!strip_suffix(op, "_mv")) { return false; }
+    if (op == "rotate" || op == "rotate_fwd") {
+        auto f = in.num(); auto m = in.num(); auto n = in.num();
+        V v = tov(in.list());
+        MBuf a(v);
+        guarded(impl, [&](Out& o) {
+            std::ptrdiff_t r;
+            if (op == "rotate") { r = etl::rotate(a.b() + f, a.b() + m, a.b() + n) - a.b(); }
+            else { r = etl::rotate(FwdIt<Mv>(a.b() + f), FwdIt<Mv>(a.b() + m), FwdIt<Mv>(a.b() + n)).p - a.b(); }
+            o.tok("ok").num(r); put(o, a.vec()); mv_tail(o, a, false);
+        });
+        MBuf s(v);
+        auto r = std::rotate(s.b() + f, s.b() + m, s.b() + n) - s.b();
+        ref.tok("ok").num(r); put(ref, s.vec());
+        return true;
+    }
+    if (op == "reverse_ra" || op == "reverse_bidi") {
+        auto f = in.num(); auto n = in.num();
+        V v = tov(in.list());
+        MBuf a(v);
+        guarded(impl, [&](Out& o) {
+            if (op == "reverse_ra") { etl::reverse(a.b() + f, a.b() + n); }
+            else { etl::reverse(BidiIt<Mv>(a.b() + f), BidiIt<Mv>(a.b() + n)); }
+            o.tok("ok"); put(o, a.vec()); mv_tail(o, a, false);
+        });
+        MBuf s(v);
+        std::reverse(s.b() + f, s.b() + n);
+        ref.tok("ok"); put(ref, s.vec());
+        return true;
+    }
+    if (op == "swap_ranges") {
+        V v1 = tov(in.list()); V v2 = tov(in.list());
+        MBuf a(v1), b(v2);
+        guarded(impl, [&](Out& o) {
+            auto r = etl::swap_ranges(a.b(), a.e(), b.b()) - b.b();
+            o.tok("ok").num(r); put(o, a.vec()); put(o, b.vec()); mv_tail(o, a, false); if (!b.guards_ok()) { o.tok("GUARD-HIT"); }
+        });
+        MBuf s1(v1), s2(v2);
+        auto r = std::swap_ranges(s1.b(), s1.e(), s2.b()) - s2.b();
+        ref.tok("ok").num(r); put(ref, s1.vec()); put(ref, s2.vec());
+        return true;
+    }
+    if (op == "remove_if" || op == "remove" || op == "unique" || op == "shift_left" || op == "shift_right") {
+        auto id = in.num();
+        V v = tov(in.list());
+        MBuf a(v);
+        auto len = static_cast<std::ptrdiff_t>(v.size());
+        auto p   = [&](Mv const& x) { return pred_of(static_cast<int>(id), x.v); };
+        auto eq  = [&](Mv const& x, Mv const& y) { return eqv_of(static_cast<int>(id), x.v, y.v); };
+        bool right = op == "shift_right";
+        guarded(impl, [&](Out& o) {
+            std::ptrdiff_t r;
+            if (op == "remove_if") { r = etl::remove_if(a.b(), a.e(), p) - a.b(); }
+            else if (op == "remove") { r = etl::remove(a.b(), a.e(), Mv{static_cast<int>(id)}) - a.b(); }
+            else if (op == "unique") { r = (id == 1 ? etl::unique(a.b(), a.e()) : etl::unique(a.b(), a.e(), eq)) - a.b(); }
+            else if (op == "shift_left") { r = etl::shift_left(a.b(), a.e(), id) - a.b(); }
+            else { r = etl::shift_right(a.b(), a.e(), id) - a.b(); }
+            o.tok("ok");
+            if (full) { o.num(r); put(o, a.vec()); }
+            else if (right) { o.num(r); put_range(o, a.b() + r, len - r); }
+            else { if (op == "shift_left") { o.num(r); } put_range(o, a.b(), r); }
+            mv_tail(o, a, full);
+        });
+        if (!full && !((op == "shift_left" || right) && id < 0)) {
+            MBuf s(v);
+            std::ptrdiff_t r;
+            if (op == "remove_if") { r = std::remove_if(s.b(), s.e(), p) - s.b(); }
+            else if (op == "remove") { r = std::remove(s.b(), s.e(), Mv{static_cast<int>(id)}) - s.b(); }
+            else if (op == "unique") { r = std::unique(s.b(), s.e(), eq) - s.b(); }
+            else if (op == "shift_left") { r = std::shift_left(s.b(), s.e(), id) - s.b(); }
+            else { r = std::shift_right(s.b(), s.e(), id) - s.b(); }
+            ref.tok("ok");
+            if (right) { ref.num(r); put_range(ref, s.b() + r, len - r); }
+            else { if (op == "shift_left") { ref.num(r); } put_range(ref, s.b(), r); }
+        }
+        return true;
+    }
+    if (op == "partition" || op == "stable_partition") {
+        auto id = static_cast<int>(in.num());
+        V v = tov(in.list());
+        MBuf a(v);
+        auto p  = [&](Mv const& x) { return pred_of(id, x.v); };
+        auto pi = [&](int x) { return pred_of(id, x); };
+        bool st = op == "stable_partition";
+        guarded(impl, [&](Out& o) {
+            auto r = (st ? etl::stable_partition(a.b(), a.e(), p) : etl::partition(a.b(), a.e(), p)) - a.b();
+            V res = a.vec();
+            o.tok("ok").num(r);
+            if (full || st) { put(o, res); }
+            else { o.b(std::all_of(res.begin(), res.begin() + r, pi) && std::none_of(res.begin() + r, res.end(), pi)).b(is_perm(res, v)); }
+            mv_tail(o, a, false);
+        });
+        if (!full || st) {
+            MBuf s(v);
+            auto r = (st ? std::stable_partition(s.b(), s.e(), p) : std::partition(s.b(), s.e(), p)) - s.b();
+            V res = s.vec();
+            ref.tok("ok").num(r);
+            if (st) { put(ref, res); }
+            else { ref.b(std::all_of(res.begin(), res.begin() + r, pi) && std::none_of(res.begin() + r, res.end(), pi)).b(is_perm(res, v)); }
+        }
+        return true;
+    }
+    if (op == "inplace_merge") {
+        auto id = static_cast<int>(in.num());
+        auto mid = in.num();
+        V v = tov(in.list());
+        MBuf a(v);
+        auto c = [&](Mv const& x, Mv const& y) { return cmp_of(id, x.v, y.v); };
+        guarded(impl, [&](Out& o) {
+            if (id == 3) { etl::inplace_merge(a.b(), a.b() + mid, a.e()); } else { etl::inplace_merge(a.b(), a.b() + mid, a.e(), c); }
+            o.tok("ok"); put(o, a.vec()); mv_tail(o, a, false);
+        });
+        MBuf s(v);
+        std::inplace_merge(s.b(), s.b() + mid, s.e(), c);
+        ref.tok("ok"); put(ref, s.vec());
+        return true;
+    }
+    if (op == "move_ov" || op == "move_backward_ov") {
+        // forward: <first> <last> <dest> (dest outside [first,last]);  backward: <first> <last> <dLast> (dLast outside [first,last])
+        auto f = in.num(); auto l = in.num(); auto d = in.num();
+        V v = tov(in.list());
+        MBuf a(v);
+        bool fwd = op == "move_ov";
+        guarded(impl, [&](Out& o) {
+            auto r = (fwd ? etl::move(a.b() + f, a.b() + l, a.b() + d) : etl::move_backward(a.b() + f, a.b() + l, a.b() + d)) - a.b();
+            o.tok("ok").num(r);
+            if (full) { put(o, a.vec()); }
+            else { put_range(o, a.b() + (fwd ? d : r), l - f); }
+            mv_tail(o, a, full);
+        });
+        if (!full) {
+            MBuf s(v);
+            auto r = (fwd ? std::move(s.b() + f, s.b() + l, s.b() + d) : std::move_backward(s.b() + f, s.b() + l, s.b() + d)) - s.b();
+            ref.tok("ok").num(r); put_range(ref, s.b() + (fwd ? d : r), l - f);
+        }
+        return true;
+    }
+    {
+        static char const* sorts[] = {"sort", "stable_sort", "insertion_sort", "gnome_sort", "bubble_sort", "exchange_sort", "merge_sort",
+            "nth_element", "partial_sort"};
+        for (auto* name : sorts) {
+            std::string nm = name;
+            if (op != nm) { continue; }
+            auto id = static_cast<int>(in.num());
+            i64 k = 0;
+            if (nm == "nth_element" || nm == "partial_sort") { k = in.num(); }
+            V v = tov(in.list());
+            MBuf a(v);
+            auto c  = [&](Mv const& x, Mv const& y) { return cmp_of(id, x.v, y.v); };
+            auto ci = [&](int x, int y) { return cmp_of(id, x, y); };
+            bool stable = nm == "stable_sort";
+            bool dflt = id == 3;
+            guarded(impl, [&](Out& o) {
+                auto b = a.b(); auto e = a.e();
+                if (nm == "gnome_sort") { if (dflt) { etl::gnome_sort(b, e); } else { etl::gnome_sort(b, e, c); } }
+                else if (nm == "sort") { if (dflt) { etl::sort(b, e); } else { etl::sort(b, e, c); } }
+                else if (nm == "stable_sort") { if (dflt) { etl::stable_sort(b, e); } else { etl::stable_sort(b, e, c); } }
+                else if (nm == "insertion_sort") { if (dflt) { etl::insertion_sort(b, e); } else { etl::insertion_sort(b, e, c); } }
+                else if (nm == "bubble_sort") { if (dflt) { etl::bubble_sort(b, e); } else { etl::bubble_sort(b, e, c); } }
+                else if (nm == "exchange_sort") { if (dflt) { etl::exchange_sort(b, e); } else { etl::exchange_sort(b, e, c); } }
+                else if (nm == "merge_sort") { if (dflt) { etl::merge_sort(b, e); } else { etl::merge_sort(b, e, c); } }
+                else if (nm == "nth_element") { if (dflt) { etl::nth_element(b, b + k, e); } else { etl::nth_element(b, b + k, e, c); } }
+                else { if (dflt) { etl::partial_sort(b, b + k, e); } else { etl::partial_sort(b, b + k, e, c); } }
+                V r = a.vec();
+                o.tok("ok");
+                if (full || stable) { put(o, r); }
+                else if (nm == "nth_element") {
+                    bool okp = true;
+                    for (i64 i = 0; i < k && okp; ++i) { for (i64 j = k; j < static_cast<i64>(r.size()); ++j) { if (ci(r[j], r[i])) { okp = false; break; } } }
+                    if (okp && k < static_cast<i64>(r.size())) {
+                        V s = v; std::sort(s.begin(), s.end(), ci);
+                        okp = !ci(s[k], r[k]) && !ci(r[k], s[k]);
+                    }
+                    o.b(okp).b(is_perm(r, v));
+                } else if (nm == "partial_sort") {
+                    bool okp = std::is_sorted(r.begin(), r.begin() + k, ci);
+                    for (i64 i = 0; i < k && okp; ++i) { for (i64 j = k; j < static_cast<i64>(r.size()); ++j) { if (ci(r[j], r[i])) { okp = false; break; } } }
+                    o.b(okp).b(is_perm(r, v));
+                } else { o.b(std::is_sorted(r.begin(), r.end(), ci)).b(is_perm(r, v)); }
+                mv_tail(o, a, false);
+            });
+            if (!full) {
+                ref.tok("ok");
+                if (stable) { MBuf s(v); std::stable_sort(s.b(), s.e(), c); put(ref, s.vec()); }
+                else { ref.b(true).b(true); }
+            }
+            return true;
+        }
     }
     return false;
 }
